@@ -377,8 +377,10 @@ CONC_SCEN = {
     23: ([10, 0], [O('set', 2, 21), O('open')]),
     24: ([10, 0], [O('set', 2, 21), O('open'), O('load')]),
     26: ([10, 20], [O('clear'), O('del', 2)]),
+    27: ([0, 0], [O('set', 1, 11), O('set', 1, 12)]),
+    28: ([10, 0], [O('set', 1, 11), O('set', 1, 12)]),
 }
-DIR_SCEN = [11, 12, 13, 14, 15, 16, 17, 18, 19, 20, 21, 22, 26]
+DIR_SCEN = [11, 12, 13, 14, 15, 16, 17, 18, 19, 20, 21, 22, 26, 27, 28]
 SQL_SCEN = DIR_SCEN
 FILE_SCEN = [12, 13, 14, 15, 16, 18, 20, 23, 24]      # (writer/writer is promised for directory and SQL archives only)
 
